@@ -14,7 +14,7 @@
 // The unit is built once per configuration (-DVF_BCFG=n): CBMC resolves the indirect attribute access calls against every
 // access function in the unit, so a unit that holds all four servers is 4 x more expensive per call site.
 #ifndef VF_BCFG
-#error "define VF_BCFG = 0..6"
+#error "define VF_BCFG = 0..8"
 #endif
 #include <bluetoe/server.hpp>
 #include <bluetoe/service.hpp>
@@ -303,6 +303,52 @@ using b7_t = bluetoe::server<
 using srv_t = b7_t;
 #endif
 
+#if VF_BCFG == 7
+// ------------------------------------------------------------------------------------------------ B8 (primary, secondary, primary: all with 16 bit UUIDs, so that one
+// Read By Group Type response could carry all three; 9 attributes)
+using b8_t = bluetoe::server<
+    bluetoe::no_gap_service_for_gatt_servers,
+    bluetoe::max_mtu_size< 65 >,
+    bluetoe::service<
+        bluetoe::service_uuid16< 0x18A1 >,
+        bluetoe::characteristic< bluetoe::characteristic_uuid16< 0x2AA1 >, bluetoe::fixed_uint8_value< 0x01 > >
+    >,
+    bluetoe::service<
+        bluetoe::is_secondary_service,
+        bluetoe::service_uuid16< 0x18A2 >,
+        bluetoe::characteristic< bluetoe::characteristic_uuid16< 0x2AA2 >, bluetoe::fixed_uint8_value< 0x02 > >
+    >,
+    bluetoe::service<
+        bluetoe::service_uuid16< 0x18A3 >,
+        bluetoe::characteristic< bluetoe::characteristic_uuid16< 0x2AA3 >, bluetoe::fixed_uint8_value< 0x03 > >
+    >
+>;
+using srv_t = b8_t;
+#endif
+
+#if VF_BCFG == 8
+// ------------------------------------------------------------------------------------------------ B9 (a secondary service with a 128 bit UUID and a gap INSIDE
+// the service (fixed handle on its second characteristic), included by a primary service: the 128 bit include declaration carries
+// only first and last handle; 9 attributes)
+using b9_sec_uuid = bluetoe::service_uuid< 0xD9473E00, 0xE7D3, 0x4D90, 0x9366, 0x282AC4F44FEB >;
+using b9_t = bluetoe::server<
+    bluetoe::no_gap_service_for_gatt_servers,
+    bluetoe::max_mtu_size< 65 >,
+    bluetoe::service<
+        bluetoe::is_secondary_service,
+        b9_sec_uuid,
+        bluetoe::characteristic< bluetoe::characteristic_uuid16< 0x2AC1 >, bluetoe::fixed_uint8_value< 0x42 > >,
+        bluetoe::characteristic< bluetoe::attribute_handle< 0x0010 >, bluetoe::characteristic_uuid16< 0x2AC2 >, bluetoe::fixed_uint8_value< 0x43 > >
+    >,
+    bluetoe::service<
+        bluetoe::service_uuid16< 0x18B1 >,
+        bluetoe::include_service< b9_sec_uuid >,
+        bluetoe::characteristic< bluetoe::characteristic_uuid16< 0x2AB1 >, bluetoe::fixed_uint8_value< 0x44 > >
+    >
+>;
+using srv_t = b9_t;
+#endif
+
 // ------------------------------------------------------------------------------------------------ plumbing
 struct conn_t : srv_t::connection_data {
     bluetoe::connection_security_attributes security_attributes() const { return bluetoe::connection_security_attributes(); }
@@ -361,7 +407,9 @@ VF_EXPORT void vf_b_set_bound_values( int, const std::uint8_t* bytes )
     std::memcpy( &b5_v1, bytes, 4 ); std::memcpy( &b5_v2, bytes + 4, 1 );
 #elif VF_BCFG == 5
     std::memcpy( &b6_v1, bytes, 2 );
-#else
+#elif VF_BCFG == 6
     std::memcpy( &b7_v1, bytes, 2 );
+#else
+    (void)bytes;    // B8 and B9 have no bound values
 #endif
 }
